@@ -19,6 +19,10 @@ func replayDetImpl(c *Ctx, raw json.RawMessage) bool {
 			Case  addrCase `json:"case"`
 			Mode  string   `json:"mode"`
 			Procs int      `json:"gomaxprocs"`
+			Stop  *struct {
+				Match string `json:"match"`
+				Mode  string `json:"mode"`
+			} `json:"stop"`
 		} `json:"input"`
 	}
 	json.Unmarshal(raw, &rp)
@@ -43,10 +47,29 @@ func replayDetImpl(c *Ctx, raw json.RawMessage) bool {
 		if m.Name != rp.Input.Mode {
 			continue
 		}
+		if st := rp.Input.Stop; st != nil {
+			for rep := 0; rep < 3; rep++ {
+				plan, _ := json.Marshal(faultPlan{Match: st.Match, Nth: 1, Mode: st.Mode})
+				e.extraEnv = []string{"VERIF_FAULT=" + string(plan)}
+				ar := e.runAddr(l, m, base, race, rp.Input.Procs)
+				e.extraEnv = nil
+				if ar.Before != ar.After {
+					return true
+				}
+			}
+			return false
+		}
 		for rep := 0; rep < 10; rep++ {
+			e.extraEnv = []string{"VERIF_SNAP_DIR=" + base}
 			ar := e.runAddr(l, m, base, race, rp.Input.Procs)
+			e.extraEnv = nil
 			if ar.Before != ar.After || strings.Contains(ar.Stderr, "DATA RACE") || ar.Exit != 0 {
 				return true
+			}
+			for _, rec := range ar.Log {
+				if rec.Snap != "" && rec.Snap != ar.Before {
+					return true
+				}
 			}
 			if first == "" {
 				first = ar.Stdout
